@@ -1,6 +1,7 @@
 """Per-property registry: which Go drivers to build/run and descriptive texts for evidence."""
 
 MAIN = {"pkg": ".", "overlay": "main"}
+COOKIE = {"pkg": "pkg/sessions/cookie", "overlay": "cookie"}
 
 PROPS = {
     "C09": {
@@ -20,6 +21,12 @@ PROPS = {
         "level_note": "HMAC modelled as a function (table of true MACs in the correspondence); time.Time arithmetic assumed exact; "
                       "clock read before/after each call.",
     },
+}
+
+PROPS["C10"] = {
+    "drivers": [COOKIE],
+    "rule": "",
+    "level_text": "wip", "level_note": "wip",
 }
 
 NOT_APPLICABLE = {}
